@@ -163,7 +163,18 @@ impl Context
         {
             match serde_yaml::from_str::<Cache>(cache_yaml.as_str())
             {
-                Ok(loaded_cache) => Some(loaded_cache.next_reference_id),
+                Ok(loaded_cache) if loaded_cache.next_reference_id > 0 =>
+                {
+                    Some(loaded_cache.next_reference_id)
+                },
+                Ok(_) =>
+                {
+                    log::warn!(
+                        "[ref: 38] Lock file {} holds the reference ID 0, which is never issued; ignoring it",
+                        Context::CACHE_FILENAME
+                    );
+                    None
+                },
                 Err(e) =>
                 {
                     log::warn!(
